@@ -1,7 +1,8 @@
 import ComposeVerif.Ops.Common
 import ComposeVerif.Model.Name
+import ComposeVerif.Model.NameLoader
 import ComposeVerif.Spec.Name
-/-! line-protocol ops for C17: `c17norm`, `c17normRange`, `c17load` -/
+/-! line-protocol ops for C17: `c17norm`, `c17normRange`, `c17load`, `c17pn` (loader-level entry) -/
 open Lean
 namespace CV.Ops.C17
 open CV CV.Name
@@ -52,6 +53,7 @@ def optOf (j : Json) : Option Opt :=
   | "workdir" => some (.withWorkDir (optNat j "d"))
   | "cfgenv" => some .withConfigFileEnv
   | "defcfg" => some .withDefaultConfigPath
+  | "envfile" => some (withEnvFileOpt (getStr j "v").toList)   -- cli.WithEnvFile (deprecated)
   | _ => none
 
 def dirOf (j : Json) : DirNode :=
@@ -99,11 +101,11 @@ def errStr : Err → String
   | .disableParse => "disableParse" | .panic => "panic"
   | .configNotFound => "configNotFound" | .configIsDir => "configIsDir" | .noConfig => "noConfig"
 
-def modelJson (w : World) (opts : List Opt) : Json :=
+def modelJson (w : World) (opts : List Opt) (skip : Bool := false) : Json :=
   match runOpts w opts { configs := w.given } with
   | .error e => Json.mkObj [("err", errStr e), ("at", "options")]
   | .ok o =>
-    match load w o with
+    match loadX w o skip with   -- `loadX w o false = load w o` (`loadX_interp_is_load`)
     | .error e => Json.mkObj [("err", errStr e), ("at", "load")]
     | .ok r => Json.mkObj [("ok", Json.mkObj [("name", str r.name), ("env", envJson r.env), ("probe", str r.probe)])]
 
@@ -140,7 +142,7 @@ def documented (opts : List Opt) : Bool :=
     cfgOpts == [.withConfigFileEnv, .withDefaultConfigPath])
 
 /-- spec side of the oracle, computed from the options *syntactically* (no option state machine) -/
-def specJson (a : Json) (w : World) (opts : List Opt) : Json :=
+def specJson (a : Json) (w : World) (opts : List Opt) (skip : Bool := false) : Json :=
   -- the explicitly requested name: the last WithName
   let names := opts.filterMap fun | .withName n => some n | _ => none
   let badName := names.any fun n => n ≠ [] && !validName n
@@ -206,14 +208,15 @@ def specJson (a : Json) (w : World) (opts : List Opt) : Json :=
     let pdir := (dirNode w pdirId).name
     let src : Spec.Sources := {
       explicit := explicit, fromEnv := projEnv.get cpn,
-      fromFiles := (match Template.subst projEnv.get (Spec.selectedName files) with | .ok s => .ok s | _ => .error ()),
+      fromFiles := (if skip then .ok (Spec.selectedName files) else
+        match Template.subst projEnv.get (Spec.selectedName files) with | .ok s => .ok s | _ => .error ()),
       dirBase := pdir }
     let dec := if cfgs.isEmpty then Spec.Decision.failed else Spec.decide src
     let fin : List (String × Json) := match dec with
       | .name n =>
         let env : Env := (cpn, n) :: projEnv
-        let ok := match interpAll env (allNames files) with | .ok _ => true | _ => false
-        (match ok, Template.subst env.get w.probe with
+        let ok := skip || (match interpAll env (allNames files) with | .ok _ => true | _ => false)
+        (match ok, (if skip then Template.Out.ok w.probe else Template.subst env.get w.probe) with
           | true, .ok p => [("pipelineOk", Json.bool true), ("probe", str p), ("finalEnv", envJson env)]
           | _, _ => [("pipelineOk", Json.bool false)])
       | _ => []
@@ -230,10 +233,36 @@ def specJson (a : Json) (w : World) (opts : List Opt) : Json :=
       ("layers", Json.arr (layers.map envJson).toArray),
       ("env", envJson projEnv)] ++ fin)
 
+/-- the `WithInterpolation(b)` calls among the options, in call order (the option commutes with all others) -/
+def interpCalls (a : Json) : List Bool :=
+  (getArr a "opts").filterMap fun j => if getStr j "op" == "interp" then some (getBool j "b") else none
+
 def c17load : Handler := fun args =>
   let w := worldOf args
   let opts := (getArr args "opts").filterMap optOf
-  Json.mkObj [("model", modelJson w opts), ("spec", specJson args w opts)]
+  let skip := !interpFlag (interpCalls args)
+  Json.mkObj [("model", modelJson w opts skip), ("spec", specJson args w opts skip)]
+
+/-- the loader-level entry: `loader.LoadWithContext` with `SetProjectName(name, imp)`, `SkipInterpolation`, an
+    environment that may be nil -/
+def c17pn : Handler := fun args =>
+  let files : List (List (Option Str)) := (getArr args "files").map fun f => match f with
+    | .arr docs => docs.toList.map docOf
+    | _ => []
+  let env : Option Env := match args.getObjVal? "env" with
+    | .ok (.arr a) => some (a.toList.map pairOf)
+    | _ => none
+  let lo : LOpts := { name := (getStr args "name").toList, imperative := getBool args "imp", skipInterp := getBool args "skip" }
+  let probe := (getStr args "probe").toList
+  let model := match loadL files env lo probe with
+    | .error e => Json.mkObj [("err", errStr e)]
+    | .ok r => Json.mkObj [("ok", Json.mkObj [("name", str r.name), ("env", envJson r.env), ("probe", str r.probe)])]
+  let dec := Spec.decide {
+    explicit := if lo.imperative then lo.name else [],
+    fromEnv := none,
+    fromFiles := (match interpName (env.getD []) lo.skipInterp (Spec.selectedName files) with | .ok s => .ok s | .error _ => .error ()),
+    dirBase := lo.name }
+  Json.mkObj [("model", model), ("decision", decisionJson dec)]
 
 def c17norm : Handler := fun args =>
   let s := (getStr args "s").toList
@@ -254,6 +283,6 @@ def c17normRange : Handler := fun args =>
   Json.mkObj [("hits", Json.arr hits.toArray)]
 
 def handlers : List (String × Handler) :=
-  [("c17load", c17load), ("c17norm", c17norm), ("c17normRange", c17normRange)]
+  [("c17load", c17load), ("c17norm", c17norm), ("c17normRange", c17normRange), ("c17pn", c17pn)]
 
 end CV.Ops.C17
